@@ -370,6 +370,9 @@ protected:
     template<bool have_pool>
     async<void> worker_coro(std::stop_token state) {
         std::stop_callback stop_notify(state, [&]{
+            //notify under the lock: the worker tests stop_requested() and then waits while
+            //holding the lock, a notification sent between the two would be lost
+            std::lock_guard _(_mx);
             _cond.notify_all();
         });
         std::unique_lock lk(_mx);
